@@ -237,7 +237,7 @@ def case_reconfigure(rec, rset, nb, der, schedule):
     iR = np.array(RSETS[rset])
     X = mkdata(rset, nb, True)
     lat, wc = mklat(nb, False)
-    par = dict(test="reconfigure", rset=rset, NK=[0, 0, 0], dK=[0, 0, 0], nb=nb, der=der, herm_data=True, trailing=[], schedule=schedule)
+    par = dict(test="reconfigure", rset=rset, NK=[1, 1, 1], dK=[0, 0, 0], nb=nb, der=der, herm_data=True, trailing=[], schedule=schedule)
 
     def body(rec):
         rec.witness = lambda env: _witness(env, X, lat, wc, **par)
